@@ -14,6 +14,7 @@ unpatched parser (`Orig.lean`) are the `…_orig_…counterexample` theorems at 
 import TboxModel.C15.Proofs
 import TboxModel.C15.Pending
 import TboxModel.C15.Account
+import TboxModel.C15.Ring
 import TboxModel.C15.Orig
 namespace Tbox.C15
 
@@ -140,76 +141,116 @@ theorem C15_cancelled_never_called (ops1 ops2 : List Op) (id : Nat) (r : Req)
     ∀ e ∈ allEvents (run init (ops1 ++ Op.cancel id :: ops2)).2, e.serial ≠ r.serial := by
   have h1 := run_ok ops1 init init_wf
   have hm := find_mem h
-  obtain ⟨w2, d2, _, k2⟩ := erase_spec h1.1 hm
-  have hc : (step (run init ops1).1 (.cancel id)).1 = { (run init ops1).1 with reqs := erase (run init ops1).1.reqs id } := by
-    simp [step, cancel, h]
-  have hce : (step (run init ops1).1 (.cancel id)).2.events = [] := by
-    simp [step, cancel, h]
-  have h2 := run_ok ops2 _ w2
+  have hc := (cancel_ok id h1.1).1
+  have hd : Dead (cancel (run init ops1).1 id).1 r.serial := by
+    apply erase_dead h1.1 hm <;> simp [cancel, h]
+  have h2 := run_ok ops2 _ hc.1
   intro e he
   rw [run_append] at he
-  simp only [run, allEvents, List.flatMap_append, List.flatMap_cons, hce, hc, List.nil_append,
+  simp only [run, allEvents, List.flatMap_append, List.flatMap_cons, step, List.nil_append,
     List.mem_append] at he
   rcases he with he | he
   · intro heq
     exact (h1.2.2.2 e he).1.2 _ hm heq.symm
-  · exact (h2.2.1 _ d2).2 e he
+  · exact (h2.2.1 _ hd).2 e he
+
+/-- once a lookup is no longer outstanding (completed, timed out, or cancelled — by an operation
+or from inside any callback) its callback never runs (again), whatever happens later -/
+theorem C15_no_callback_once_dead (st : St) (h : WF st) (s : Nat) (hd : Dead st s) (ops : List Op) :
+    ∀ e ∈ allEvents (run st ops).2, e.serial ≠ s :=
+  ((run_ok ops st h).2.1 s hd).2
+
+/-- the ghost log `St.called` is exactly the list of callback invocations of the run -/
+theorem C15_called_log (ops : List Op) :
+    (run init ops).1.called = (allEvents (run init ops).2).map (·.serial) := by
+  have := run_called ops init
+  simpa [CalledOK, init] using this
 
 /-
--- OPEN  C15_callback_once (full strength): for every operation sequence from `init`, every
--- lookup that was not refused and not cancelled has had its callback run exactly once by the
--- time five ticks have passed since it was issued:
---   ∀ ops s, s < st.nextSerial →
---     s ∈ h.called ∨ s ∈ h.cancelled ∨ s ∈ h.refused ∨
---     ∃ e ∈ st.reqs, e.2.serial = s ∧ st.now - e.2.born < 5        where (st, h) = runH init {} ops
--- FALSE as stated: `requests_[req_id] = req` overwrites an outstanding lookup when the 16-bit id
--- wraps onto it (`C15_callback_once_counterexample`).  Proved: at most once and never after a
--- cancel — unconditionally; no lookup is ever lost (`C15_callback_once_partial`) under the
--- decidable hypothesis `freshRun`.  NOT proved (time): the bound `st.now - e.2.born < 5` on how
--- long a lookup can stay outstanding (ring invariant: an entry of age a sits in slot r0,r4,r3,r2,r1
--- for a = 0..4 and `valueNumber` = ring population); that part is tied to the code only by the
--- differential runs (every generated case drains the ring with 5–6 ticks and compares callbacks
--- and `isRunning`).
+-- C15_callback_once (full strength): for every operation sequence from `init`, with callbacks
+-- that themselves issue and cancel lookups, every lookup that was not refused and not cancelled
+-- has its callback run exactly once, at the latest at the fifth tick after it was issued.
+-- FALSE without a side condition: `requests_[req_id] = req` overwrites an outstanding lookup when
+-- the 16-bit id wraps onto it (`C15_callback_once_counterexample`).  Proved:
+--   * at most once, never once dead/cancelled — unconditionally (`C15_callback_at_most_once`,
+--     `C15_cancelled_never_called`, `C15_no_callback_once_dead`);
+--   * never outstanding for five ticks — unconditionally (`C15_outstanding_at_most_5_ticks`);
+--   * no lookup is ever lost (`C15_callback_once_partial`) under the decidable hypothesis
+--     `idReuse = false`.
+-- Together: under `idReuse = false` a lookup that is neither refused nor cancelled is, from the
+-- fifth tick after its issue on, in `called` — exactly once.
+-- OPEN: "a TIMEOUT callback never comes before the fifth tick".  False in general
+-- (`C15_timeout_early_counterexample`: a completed lookup's id stays in the ring; when the id
+-- counter wraps onto it within five ticks the new lookup is timed out by the stale entry); the
+-- hypothesis needed (no id of the ring or of the slot being walked is handed out) was not
+-- carried through the proofs.  Tied by the differential runs only.
 -/
 
-theorem histStep_called (st : St) (h : Hist) (op : Op) :
-    (histStep st h op).called = h.called ++ (step st op).2.events.map (·.serial) := by
-  cases op <;> simp only [histStep] <;> repeat' (first | rfl | split)
+/-- **C15_callback_once_partial.** For every operation sequence — callbacks issuing and cancelling
+lookups included — during which no lookup was handed an id that was still outstanding or still
+in the ring (`idReuse = false`, decidable ghost flag), no lookup is ever lost: each lookup issued
+so far (by an operation or from a callback) is still outstanding, or its callback has run, or it
+was cancelled while outstanding, or it was refused (no server configured). -/
+theorem C15_callback_once_partial (ops : List Op) (hf : (run init ops).1.idReuse = false) :
+    ∀ s, s < (run init ops).1.nextSerial →
+      s ∈ (run init ops).1.called ∨ s ∈ (run init ops).1.cancelled ∨
+      s ∈ (run init ops).1.refused ∨ ∃ e ∈ (run init ops).1.reqs, e.2.serial = s :=
+  ((run_pres ops init hf).2 (by simp [KU, init]) (by intro s hs; simp [init] at hs)).2
 
-theorem runH_run : ∀ (ops : List Op) (st : St) (h : Hist),
-    (runH st h ops).1 = (run st ops).1 ∧
-    (runH st h ops).2.called = h.called ++ (allEvents (run st ops).2).map (·.serial) := by
-  intro ops
-  induction ops with
-  | nil => intro st h; simp [runH, run, allEvents]
-  | cons op ops ih =>
-    intro st h
-    have := ih (step st op).1 (histStep st h op)
-    simp only [runH, run, allEvents, List.flatMap_cons, List.map_append]
-    rw [this.1, this.2, histStep_called, List.append_assoc]
-    exact ⟨rfl, rfl⟩
+/-- **C15_outstanding_at_most_5_ticks.** For every operation sequence, callbacks issuing lookups
+from inside reply, error and TIMEOUT callbacks included: every outstanding lookup was issued
+fewer than five ticks ago (and its id sits in the ring slot of its age, `value_number_` counting
+the ring).  So the tick that would make a lookup five ticks old removes it: it times out at the
+fifth tick after its issue unless completed or cancelled before.  Unconditional. -/
+theorem C15_outstanding_at_most_5_ticks (ops : List Op) :
+    ∀ e ∈ (run init ops).1.reqs,
+      e.2.born ≤ (run init ops).1.now ∧ (run init ops).1.now - e.2.born < 5 ∧
+      e.1 ∈ slot (run init ops).1 ((run init ops).1.now - e.2.born) :=
+  (run_timed ops init init_timed).1
 
-/-- **C15_callback_once_partial.** For every operation sequence in which no lookup is handed a
-16-bit id that is still outstanding (`freshRun`, decidable), no lookup is ever lost: at every
-point each lookup issued so far is still outstanding, or its callback has run, or it was
-cancelled while outstanding, or it was refused (no server configured).  `h.called` is exactly
-the list of callback invocations of the run (`runH_run`), which `C15_callback_at_most_once`
-shows to be duplicate-free, and `C15_cancelled_never_called` keeps disjoint from the cancelled
-ones: so a lookup that has left `requests_` without being cancelled or refused was called back
-exactly once. -/
-theorem C15_callback_once_partial (ops : List Op) (hf : freshRun init ops = true) :
-    ∀ s, s < (runH init {} ops).1.nextSerial →
-      s ∈ (runH init {} ops).2.called ∨ s ∈ (runH init {} ops).2.cancelled ∨
-      s ∈ (runH init {} ops).2.refused ∨ ∃ e ∈ (runH init {} ops).1.reqs, e.2.serial = s :=
-  runH_acc ops init {} (by simp [KU, init]) (by intro s hs; simp [init] at hs) hf
+/-- the tick is not skipped while something is outstanding: `value_number_` is the ring
+population and every outstanding id is in the ring -/
+theorem C15_timer_armed_while_outstanding (ops : List Op) (h : (run init ops).1.reqs ≠ []) :
+    (run init ops).1.valueNumber > 0 := by
+  have ht := run_timed ops init init_timed
+  generalize (run init ops).1 = st at h ht
+  cases hr : st.reqs with
+  | nil => exact absurd hr h
+  | cons e l =>
+    obtain ⟨_, ha, hm⟩ := ht.1 e (by rw [hr]; exact List.mem_cons_self)
+    rw [ht.2]
+    unfold ringLen
+    generalize st.now - e.2.born = a at ha hm
+    have : a = 0 ∨ a = 1 ∨ a = 2 ∨ a = 3 ∨ a = 4 := by omega
+    rcases this with rfl | rfl | rfl | rfl | rfl <;>
+      (have := List.length_pos_of_mem hm; simp only [slot] at this; omega)
+
+/-- **C15_timeout_early_counterexample.** A state satisfying all invariants in which a stale ring
+entry (id 1 of a lookup completed earlier, still in slot `r1`) coincides with the id of a
+lookup issued in the current second: the next tick times the new lookup out at age 1.
+Reachable from `init` only by wrapping the 16-bit id counter within five ticks. -/
+theorem C15_timeout_early_counterexample :
+    ∃ st : St, WF st ∧ Timed st ∧
+      (allEvents [(step st .tick).2]).map (fun e => (e.serial, e.result.status, e.age)) = [(7, Status.timeout, 1)] := by
+  refine ⟨{ alloc := 1, reqs := [(1, { serial := 7, born := 3 })], r0 := [1], r1 := [1], valueNumber := 2,
+            nextSerial := 8, now := 3 }, ?_, ?_, ?_⟩
+  · decide
+  · refine ⟨?_, by decide⟩
+    intro e he
+    simp at he
+    subst he
+    decide
+  · decide
 
 /-- **C15_callback_once_counterexample.** A well-formed state in which `lookup` is handed the id
 of an outstanding lookup (reachable from `init` only by wrapping the 16-bit id counter, i.e.
 65 536 lookups with the first still outstanding): the older lookup (serial 0) disappears
 without its callback having run and without having been cancelled. -/
 theorem C15_callback_once_counterexample :
-    ∃ st : St, WF st ∧ (∃ e ∈ st.reqs, e.2.serial = 0) ∧ freshRun st [.lookup] = false ∧
-      (∀ e ∈ (step st .lookup).1.reqs, e.2.serial ≠ 0) ∧ (step st .lookup).2.events = [] := by
+    ∃ st : St, WF st ∧ st.idReuse = false ∧ (∃ e ∈ st.reqs, e.2.serial = 0) ∧
+      (step st (.lookup 0)).1.idReuse = true ∧ 0 ∉ (step st (.lookup 0)).1.called ∧
+      0 ∉ (step st (.lookup 0)).1.cancelled ∧
+      (∀ e ∈ (step st (.lookup 0)).1.reqs, e.2.serial ≠ 0) ∧ (step st (.lookup 0)).2.events = [] := by
   refine ⟨{ alloc := 0, reqs := [(1, { serial := 0 })], r0 := [1], valueNumber := 1, nextSerial := 1 }, ?_⟩
   decide
 
@@ -239,7 +280,7 @@ theorem C15_orig_terminates_counterexample (fuel : Nat) :
   orig_selfPointer_diverges fuel [] 0
 
 /-- one outstanding lookup (id 1) -/
-def oneLookup : St := (step init .lookup).1
+def oneLookup : St := (step init (.lookup 0)).1
 
 /-- **C15_no_uninit_no_oob is false of the unpatched `onUdpRecv`**: a one-byte datagram makes it
 read `req_id`, which no fetch has written. -/
@@ -282,14 +323,18 @@ def sample : List Byte :=
 example : (parseReply sample (fun _ => true)).val? =
     some (.answer 1 [⟨60, [10, 0, 0, 7], 51⟩] [⟨9, [98, 46, 97]⟩]) := by decide +kernel
 
-/-- a run with a duplicate reply, a cancel and a timeout: callbacks 0 (success) and 2 (timeout)
-run once each, the cancelled lookup 1 never -/
+/-- a run with a duplicate reply, a cancel, a retry issued from inside a timeout callback and a
+cancel issued from inside a reply callback: callbacks 0 (success; its script cancels lookup 3),
+2 (timeout; its script issues lookup 4) and 4 (timeout, five ticks later) run once each, the
+cancelled lookups 1 and 3 never; nothing is outstanding at the end; no id was reused -/
 example :
-    let ops := [Op.lookup, .lookup, .lookup, .recv sample, .recv sample, .cancel 2,
-                .tick, .tick, .tick, .tick, .tick, .tick]
-    (allEvents (run init ops).2).map (fun e => (e.serial, e.result.status)) =
-      [(0, Status.success), (2, Status.timeout)] ∧
-    find (run init [Op.lookup, .lookup]).1.reqs 2 = some { serial := 1 } ∧
-    freshRun init ops = true := by decide +kernel
+    let ops := [Op.defScript [.cancel 4], .defScript [.lookup 2], .defScript [],
+                .lookup 0, .lookup 2, .lookup 1, .lookup 2, .recv sample, .recv sample, .cancel 2,
+                .tick, .tick, .tick, .tick, .tick, .tick, .tick, .tick, .tick, .tick]
+    (allEvents (run init ops).2).map (fun e => (e.serial, e.result.status, e.age, e.acts)) =
+      [(0, Status.success, 0, [(Act.cancel 4, 1)]), (2, Status.timeout, 5, [(Act.lookup 2, 5)]),
+       (4, Status.timeout, 5, [])] ∧
+    (run init ops).1.cancelled = [3, 1] ∧ (run init ops).1.reqs = [] ∧
+    (run init ops).1.idReuse = false := by decide +kernel
 
 end Tbox.C15
